@@ -612,6 +612,9 @@ func (env *c16Env) check(t *rapid.T, r *c16Req, resp c14Resp) {
 	if r.mirror {
 		keys = env.worlds[1].keys
 	}
+	if resp.code == c14Panic {
+		fail("%s", resp.body)
+	}
 	if resp.code != 200 {
 		for _, l := range strings.Split(resp.body, "\n") {
 			if strings.HasPrefix(l, "— ") {
